@@ -1129,7 +1129,7 @@ func ImportToPath(pkgPath, pkgName string) string {
 func (decl ImportDecl) CoqDecl() string {
 	coqPath := pathToCoqPath(decl.Path)
 	coqImportPath := strings.ReplaceAll(path.Dir(coqPath), "/", ".")
-	name := path.Base(decl.Path)
+	name := path.Base(coqPath)
 	if decl.Trusted {
 		return fmt.Sprintf("From Perennial.goose_lang.trusted Require Import %s.%s.", coqImportPath, name)
 	} else {
